@@ -1878,3 +1878,38 @@ func c05NilPending() {
 
 func VerifC05NilPending() { c05NilPending() }
 func VerifC06NilPending() { c05Mode = 6; c05NilPending() }
+
+// A node listed twice among the interrupt-before (or interrupt-after) nodes is one interrupt point and is reported once.
+func VerifC06DuplicatePoints() {
+	ctx := context.Background()
+	vcfg("fifo", 1)
+	g := NewGraph[map[string]any, map[string]any]()
+	_ = g.AddLambdaNode("a", vNode("a", nil))
+	_ = g.AddLambdaNode("b", vNode("b", nil))
+	_ = g.AddEdge(START, "a")
+	_ = g.AddEdge("a", "b")
+	_ = g.AddEdge("b", END)
+	before := vchoose("before", 2) == 1
+	store := &vStore{m: map[string][]byte{}}
+	var opt GraphCompileOption
+	if before {
+		opt = WithInterruptBeforeNodes([]string{"b", "b"})
+	} else {
+		opt = WithInterruptAfterNodes([]string{"a", "a"})
+	}
+	r, err := g.Compile(ctx, WithCheckPointStore(store), opt)
+	vassert(err == nil, "graph compiles")
+	_, e1 := r.Invoke(ctx, map[string]any{"in": 1}, WithCheckPointID("cp"))
+	info, ok := ExtractInterruptInfo(e1)
+	vassert(ok, "the run is interrupted")
+	if !ok {
+		return
+	}
+	if before {
+		vassert(len(info.BeforeNodes) == 1 && info.BeforeNodes[0] == "b" && len(info.AfterNodes) == 0, "the interrupt-before node is reported exactly once")
+	} else {
+		vassert(len(info.AfterNodes) == 1 && info.AfterNodes[0] == "a" && len(info.BeforeNodes) == 0, "the interrupt-after node is reported exactly once")
+	}
+	_, e2 := r.Invoke(ctx, map[string]any{"in": 1}, WithCheckPointID("cp"))
+	vassert(e2 == nil, "one resume completes the run")
+}
